@@ -94,6 +94,17 @@ func scalarCase(cs *fw.Case) {
 			}
 			return &failure{Kind: k, Class: cl, Detail: msg, Doc: string(data)}
 		}
+		// behaviour under subsequent use, against a clone of the source
+		var uf *failure
+		fw.Call(func() {
+			ref := ad.NewScalar(t.T, 0)
+			setFromElem(ref, t, formatElem(s0))
+			uf = compareUse(useScalar(ref, t), useScalar(get(), t))
+		})
+		if uf != nil {
+			uf.Class, uf.Doc = "deriv:"+derivClassOf(s0), string(data)
+			return uf
+		}
 		return nil
 	}
 	f := run(dirty)
